@@ -441,6 +441,19 @@ pub fn eliminated_definitions(
     Ok(checked.verif_c03_eliminated_definitions())
 }
 
+/// `dump` and `eliminated_definitions` from one and the same lowering (the
+/// temporaries of a `match` may be numbered differently by two lowerings of
+/// the same script, so only then do the variable names of the two agree).
+#[allow(clippy::type_complexity)]
+pub fn dump_with_eliminated(
+    tree: FileTree,
+    rt: &Runtime<NoCtx>,
+) -> Result<(Vec<ItemDump>, Vec<(String, Vec<(String, String)>)>), RotoReport>
+{
+    let checked = tree.parse()?.typecheck(rt)?;
+    Ok(checked.verif_c03_dump_with_eliminated())
+}
+
 fn written(item: &Item) -> Vec<(Var, LabelRef)> {
     let mut out: Vec<(Var, LabelRef)> = Vec::new();
     for b in &item.blocks {
